@@ -505,6 +505,126 @@ def suite_curves(exe, tier, seed):
             "samples": samples, "violations": viol}
 
 
+def suite_includes(exe, tier, seed):
+    """C19 (BOUNDED): include graphs as small projects on disk; the real CLI under strace (every open of a .circom file is counted)."""
+    import re
+    viol, samples = [], []
+    evals = nontrivial = 0
+    PRAGMA = "pragma circom 2.0.0;\n"
+
+    def tpl(name, flaw=False):
+        # a template; with flaw=True it contains an unconstrained assignment (a finding located in this file)
+        return f"template {name}() {{ signal input x; signal output y; y {'<--' if flaw else '<=='} x; }}\n"
+
+    def project(files, links=None):
+        d = tempfile.mkdtemp(prefix="vx-inc-")
+        for rel, text in files.items():
+            pth = os.path.join(d, rel)
+            os.makedirs(os.path.dirname(pth), exist_ok=True)
+            open(pth, "w").write(text)
+        for rel, target in (links or {}).items():
+            os.symlink(os.path.join(d, target), os.path.join(d, rel))
+        return d
+
+    def run(d, args, timeout=30):
+        tr = os.path.join(d, "trace.txt")
+        cmd = ["strace", "-f", "-e", "trace=openat,open", "-o", tr, exe] + args
+        try:
+            p = subprocess.run(cmd, cwd=d, capture_output=True, text=True, timeout=timeout)
+            rc, out, err = p.returncode, p.stdout, p.stderr
+        except subprocess.TimeoutExpired:
+            return None, "", "", {}
+        opens = {}
+        if os.path.exists(tr):
+            for l in open(tr):
+                m = re.search(r'open(?:at)?\([^"]*"([^"]+\.circom)"[^)]*\)\s*=\s*(\d+)', l)
+                if m:
+                    real = os.path.realpath(m.group(1) if os.path.isabs(m.group(1)) else os.path.join(d, m.group(1)))
+                    opens[real] = opens.get(real, 0) + 1
+        return rc, out, err, opens
+
+    cases = []
+    A = lambda inc: PRAGMA + "".join(f'include "{i}";\n' for i in inc)
+    main_a = "component main = A();\n"
+    # name, files, links, args, expectations: reachable (files that must be opened exactly once), analyzed (template names), findings_in (files that may carry findings), must_error (text)
+    cases.append(("chain", {"a.circom": A(["b.circom"]) + tpl("A") + main_a, "b.circom": A(["c.circom"]) + tpl("B", True), "c.circom": PRAGMA + tpl("C", True)}, None, ["a.circom"],
+                  dict(reachable=["a.circom", "b.circom", "c.circom"], analyzed={"A"}, findings_in=["a.circom"])))
+    cases.append(("diamond", {"a.circom": A(["b.circom", "c.circom"]) + tpl("A") + main_a, "b.circom": A(["d.circom"]) + tpl("B"), "c.circom": A(["d.circom"]) + tpl("C"), "d.circom": PRAGMA + tpl("D", True)}, None, ["a.circom"],
+                  dict(reachable=["a.circom", "b.circom", "c.circom", "d.circom"], analyzed={"A"}, findings_in=["a.circom"])))
+    cases.append(("cycle", {"a.circom": A(["b.circom"]) + tpl("A") + main_a, "b.circom": A(["a.circom"]) + tpl("B", True)}, None, ["a.circom"],
+                  dict(reachable=["a.circom", "b.circom"], analyzed={"A"}, findings_in=["a.circom"])))
+    cases.append(("self-include", {"a.circom": A(["a.circom"]) + tpl("A", True) + main_a}, None, ["a.circom"],
+                  dict(reachable=["a.circom"], analyzed={"A"}, findings_in=["a.circom"], findings_min=1)))
+    cases.append(("spellings", {"a.circom": A(["b.circom", "./b.circom", "sub/../b.circom"]) + tpl("A") + main_a, "b.circom": PRAGMA + tpl("B", True), "sub/keep.circom": PRAGMA}, None, ["a.circom"],
+                  dict(reachable=["a.circom", "b.circom"], analyzed={"A"}, findings_in=["a.circom"])))
+    cases.append(("relative-to-includer", {"a.circom": A(["sub/c.circom"]) + tpl("A") + main_a, "sub/c.circom": A(["d.circom"]) + tpl("C"), "sub/d.circom": PRAGMA + tpl("D"), "d.circom": PRAGMA + "this is not circom\n"}, None, ["a.circom"],
+                  dict(reachable=["a.circom", "sub/c.circom", "sub/d.circom"], not_opened=["d.circom"], analyzed={"A"}, findings_in=["a.circom"])))
+    cases.append(("library", {"a.circom": A(["l.circom"]) + tpl("A") + main_a, "lib/l.circom": PRAGMA + tpl("L", True)}, None, ["-L", "lib", "a.circom"],
+                  dict(reachable=["a.circom", "lib/l.circom"], analyzed={"A"}, findings_in=["a.circom"])))
+    cases.append(("relative-before-library", {"a.circom": A(["l.circom"]) + tpl("A") + main_a, "l.circom": PRAGMA + tpl("L"), "lib/l.circom": PRAGMA + "this is not circom\n"}, None, ["-L", "lib", "a.circom"],
+                  dict(reachable=["a.circom", "l.circom"], not_opened=["lib/l.circom"], analyzed={"A"}, findings_in=["a.circom"])))
+    cases.append(("library-and-named", {"a.circom": A(["l.circom"]) + tpl("A") + main_a, "lib/l.circom": PRAGMA + tpl("L", True)}, None, ["-L", "lib", "a.circom", "lib/l.circom"],
+                  dict(reachable=["a.circom", "lib/l.circom"], analyzed={"A", "L"}, findings_in=["a.circom", "lib/l.circom"], findings_min=1)))
+    cases.append(("library-two-routes", {"a.circom": A(["m.circom", "l.circom"]) + tpl("A") + main_a, "lib/m.circom": A(["l.circom"]) + tpl("M"), "lib/l.circom": PRAGMA + tpl("L", True)}, None, ["-L", "lib", "a.circom"],
+                  dict(reachable=["a.circom", "lib/m.circom", "lib/l.circom"], analyzed={"A"}, findings_in=["a.circom"])))
+    cases.append(("symlink", {"a.circom": A(["b.circom", "link.circom"]) + tpl("A") + main_a, "b.circom": PRAGMA + tpl("B", True)}, {"link.circom": "b.circom"}, ["a.circom"],
+                  dict(reachable=["a.circom", "b.circom"], analyzed={"A"}, findings_in=["a.circom"])))
+    cases.append(("both-named", {"a.circom": A(["b.circom"]) + tpl("A") + main_a, "b.circom": PRAGMA + tpl("B", True)}, None, ["a.circom", "b.circom"],
+                  dict(reachable=["a.circom", "b.circom"], analyzed={"A", "B"}, findings_in=["a.circom", "b.circom"], findings_min=1)))
+    cases.append(("named-twice-and-included", {"a.circom": A(["b.circom"]) + tpl("A") + main_a, "b.circom": PRAGMA + tpl("B", True)}, None, ["b.circom", "a.circom", "./b.circom"],
+                  dict(reachable=["a.circom", "b.circom"], analyzed={"A", "B"}, findings_in=["a.circom", "b.circom"], findings_min=1)))
+    cases.append(("unresolved", {"a.circom": PRAGMA + "\n" + 'include "nowhere.circom";\n' + tpl("A") + main_a}, None, ["a.circom"],
+                  dict(reachable=["a.circom"], must_error=("nowhere.circom", "a.circom:3"))))
+    for (name, files, links, args, exp) in cases:
+        d = project(files, links)
+        try:
+            rc, out, err, opens = run(d, args)
+            evals += 1
+            nontrivial += 1
+            if len(samples) < 6:
+                samples.append({"case": name, "exit": rc, "files_opened": len(opens)})
+            problems = []
+            if rc is None:
+                problems.append("the tool did not terminate within 30 s")
+            elif rc not in (0, 1) or "panicked" in err:
+                problems.append(f"the tool aborted (exit {rc})")
+            else:
+                for rel in exp.get("reachable", []):
+                    n = opens.get(os.path.realpath(os.path.join(d, rel)), 0)
+                    if n != 1:
+                        problems.append(f"`{rel}` was opened {n} times (expected exactly once)")
+                for rel in exp.get("not_opened", []):
+                    if opens.get(os.path.realpath(os.path.join(d, rel)), 0) != 0:
+                        problems.append(f"`{rel}` was opened although a file found earlier in the resolution order shadows it")
+                if "analyzed" in exp:
+                    got = set(re.findall(r"analyzing template '(\w+)'", out))
+                    if got != exp["analyzed"]:
+                        problems.append(f"templates analyzed: {sorted(got)}, expected {sorted(exp['analyzed'])}")
+                if "findings_in" in exp:
+                    allowed = {os.path.realpath(os.path.join(d, r)) for r in exp["findings_in"]}
+                    locs = re.findall(r"┌─ ([^\s:]+\.circom):\d+:\d+", out)
+                    bad = [l for l in locs if os.path.realpath(l if os.path.isabs(l) else os.path.join(d, l)) not in allowed]
+                    if bad:
+                        problems.append(f"findings located in files that were only included: {sorted(set(os.path.basename(b) for b in bad))}")
+                    nfind = len(findings_of(out))
+                    if nfind < exp.get("findings_min", 0):
+                        problems.append(f"{nfind} findings displayed, at least {exp['findings_min']} expected for the named files")
+                if "must_error" in exp:
+                    what, where = exp["must_error"]
+                    if rc != 1 or what not in out or where not in out:
+                        problems.append(f"an include that cannot be resolved must give an error naming `{what}` located at {where} (exit {rc})")
+            for pr in problems[:2]:
+                if len(viol) < 20:
+                    viol.append({"unit": "e2e", "fn": "FileStack / parse_files", "obligation": f"e2e|includes|{name}", "props": ["C19"] if "aborted" not in pr and "terminate" not in pr else ["C19", "C01"],
+                                 "input": {"case": name, "args": args, "files": files}, "what": f"{name}: {pr} — `circomspect {' '.join(args)}`", "replay": "python3 run/e2e.py includes quick 0"})
+        finally:
+            shutil.rmtree(d, ignore_errors=True)
+    return {"unit": "e2e-includes", "evaluations": evals, "distinct_nontrivial": nontrivial, "exhaustive": False,
+            "rule": "the real CLI under strace on small multi-file projects: it terminates with exit 0/1; every reachable file is opened exactly once whatever paths or spellings lead to it; a shadowed file is not opened; only templates of the files named on the command line are analyzed and only those files carry findings; an unresolvable include is an error located at the include statement",
+            "bound": "14 include graphs: chain, diamond, cycle, self-include, ./ and ../ spellings, resolution relative to the including file, -L library, relative-before-library, a library file that is also named, a library file reached by two routes, symlink, both files named, a file named twice and included, unresolved include",
+            "samples": samples, "violations": viol}
+
+
 def main():
     suite, tier, seed = sys.argv[1], (sys.argv[2] if len(sys.argv) > 2 else "quick"), int(sys.argv[3]) if len(sys.argv) > 3 else 0
     try:
@@ -512,7 +632,7 @@ def main():
     except Exception as e:
         print(json.dumps({"error": str(e)}))
         return
-    r = {"tuples": suite_tuples, "output": suite_output, "values": suite_values, "curves": suite_curves}[suite](exe, tier, seed)
+    r = {"tuples": suite_tuples, "output": suite_output, "values": suite_values, "curves": suite_curves, "includes": suite_includes}[suite](exe, tier, seed)
     print(json.dumps(r))
 
 if __name__ == "__main__":
